@@ -156,6 +156,9 @@ var opaqueTypes = []string{
 	"application/vnd.docker.distribution.manifest.v2+json",
 	"application/x-verif.opaque",
 	"text/plain",
+	// legal spellings that a layer in between might be tempted to tidy up
+	"Application/X-Verif.Mixed-CASE",
+	"application/x-verif.param; v=1;Q=\"a b\"",
 }
 
 type refPick struct {
